@@ -201,6 +201,7 @@ def parseTail' (s : String) : Option RErr :=
   match s.splitOn ":" with
   | ["eof"] => some .eof
   | ["ueof"] => some .unexpectedEOF
+  | ["weof"] => some .eof            -- an error wrapping io.EOF: errors.Is sees the end of the body
   | ["err"] => some .other
   | _ => none
 
